@@ -755,226 +755,6 @@ Theorem C01_legacy_refuted :
 Proof. first [ exact C01.C01_legacy_refuted | intros; eapply C01.C01_legacy_refuted; eassumption ]. Qed.
 End P_C01.
 
-(* ------------------------------------------------------------------ C06 *)
-From Model Require Import Bytes Wire Uri Hdr Message Msg StaticRoute RoundRobin Pins Proxy RunProxy SpecC14 SpecProxy SpecProxy2.
-From Model.proofs Require C06 C13 C03.
-Section P_C06.
-Import C06 C13 C03.
-Theorem C06_via_pushed : forall e t m,
-  let k := via_pos m in
-  m_headers (px_add_via e t m) = firstn k (m_headers m) ++ pushed_via_header e t :: skipn k (m_headers m) /\
-  m_start (px_add_via e t m) = m_start m /\ m_body (px_add_via e t m) = m_body m /\
-  sel (s2b "Via") (m_headers (px_add_via e t m)) = pushed_via_header e t :: sel (s2b "Via") (m_headers m) /\
-  all_vias (m_headers (px_add_via e t m)) = pushed_via e t :: all_vias (m_headers m) /\
-  (forall nm, same_header (s2b "Via") nm = false -> frame nm m (px_add_via e t m)).
-Proof. first [ exact C06.C06_via_pushed | intros; eapply C06.C06_via_pushed; eassumption ]. Qed.
-Theorem C06_via_position : forall e t m,
-  let k := via_pos m in
-  (k <= List.length (m_headers m))%nat /\
-  nth_error (m_headers (px_add_via e t m)) k = Some (pushed_via_header e t) /\
-  firstn k (m_headers (px_add_via e t m)) = firstn k (m_headers m) /\
-  skipn (S k) (m_headers (px_add_via e t m)) = skipn k (m_headers m) /\
-  sel (s2b "Via") (firstn k (m_headers m)) = [] /\
-  (sel (s2b "Via") (m_headers m) = [] -> k = O) /\
-  (sel (s2b "Via") (m_headers m) <> [] ->
-     exists h r, skipn k (m_headers m) = h :: r /\ same_header (h_name h) (s2b "Via") = true).
-Proof. first [ exact C06.C06_via_position | intros; eapply C06.C06_via_position; eassumption ]. Qed.
-Theorem C06_branch : forall e t, via_get_branch (pushed_via e t) = Some (e_branch e).
-Proof. first [ exact C06.C06_branch | intros; eapply C06.C06_branch; eassumption ]. Qed.
-Theorem C06_rr_policy : forall must t m,
-  if (has_header (s2b "Record-Route") m || must)%bool then
-    let k := find_record_route_pos (m_headers m) in
-    m_headers (px_add_record_route must t m)
-      = firstn k (m_headers m) ++ own_rr_header t :: skipn k (m_headers m) /\
-    m_start (px_add_record_route must t m) = m_start m /\ m_body (px_add_record_route must t m) = m_body m /\
-    sel (s2b "Record-Route") (m_headers (px_add_record_route must t m))
-      = own_rr_header t :: sel (s2b "Record-Route") (m_headers m) /\
-    all_rr (m_headers (px_add_record_route must t m)) = own_record_route t :: all_rr (m_headers m) /\
-    (forall nm, same_header (s2b "Record-Route") nm = false -> frame nm m (px_add_record_route must t m))
-  else px_add_record_route must t m = m.
-Proof. first [ exact C06.C06_rr_policy | intros; eapply C06.C06_rr_policy; eassumption ]. Qed.
-Theorem C06_rr_position : forall must t m,
-  (has_header (s2b "Record-Route") m || must)%bool = true ->
-  let k := find_record_route_pos (m_headers m) in
-  (k <= List.length (m_headers m))%nat /\
-  nth_error (m_headers (px_add_record_route must t m)) k = Some (own_rr_header t) /\
-  firstn k (m_headers (px_add_record_route must t m)) = firstn k (m_headers m) /\
-  skipn (S k) (m_headers (px_add_record_route must t m)) = skipn k (m_headers m) /\
-  sel (s2b "Record-Route") (firstn k (m_headers m)) = [] /\
-  (has_header (s2b "Record-Route") m = true ->
-     exists h r, skipn k (m_headers m) = h :: r /\ same_header (h_name h) (s2b "Record-Route") = true).
-Proof. first [ exact C06.C06_rr_position | intros; eapply C06.C06_rr_position; eassumption ]. Qed.
-Theorem C06_rr_flat : forall must t m,
-  all_rr (m_headers (px_add_record_route must t m)) =
-  if (has_header (s2b "Record-Route") m || must)%bool then own_record_route t :: all_rr (m_headers m)
-  else all_rr (m_headers m).
-Proof. first [ exact C06.C06_rr_flat | intros; eapply C06.C06_rr_flat; eassumption ]. Qed.
-Theorem C06_own_record_route_text : forall t, t_port t <> 0 ->
-  route_print [own_record_route t] = s2b "<sip:" ++ t_addr t ++ ":"%char :: itoa (t_port t) ++ s2b ";lr>".
-Proof. first [ exact C06.own_record_route_text | intros; eapply C06.own_record_route_text; eassumption ]. Qed.
-Theorem C06_decorate_learned : forall e l host t m,
-  alookup host l = Some t ->
-  all_vias (m_headers (decorate e l host m)) = pushed_via e t :: all_vias (m_headers m) /\
-  all_rr (m_headers (decorate e l host m)) =
-    (if (has_header (s2b "Record-Route") m || pa_must_rr (wire_proxy (e_lc e)))%bool
-     then own_record_route t :: all_rr (m_headers m) else all_rr (m_headers m)) /\
-  m_start (decorate e l host m) = m_start m /\ m_body (decorate e l host m) = m_body m /\
-  (forall nm, same_header (s2b "Via") nm = false -> same_header (s2b "Record-Route") nm = false ->
-              frame nm m (decorate e l host m)).
-Proof. first [ exact C06.C06_decorate_learned | intros; eapply C06.C06_decorate_learned; eassumption ]. Qed.
-Theorem C06_not_learned_untouched : forall e l host m, alookup host l = None -> decorate e l host m = m.
-Proof. first [ exact C06.C06_not_learned_untouched | intros; eapply C06.C06_not_learned_untouched; eassumption ]. Qed.
-Theorem C06_backend_decorates : forall e t0 p m,
-  all_vias (m_headers (backend_message e t0 p m)) = pushed_via e t0 :: all_vias (m_headers m) /\
-  all_rr (m_headers (backend_message e t0 p m)) =
-    (if (has_header (s2b "Record-Route") m || pa_must_rr (wire_proxy (e_lc e)))%bool
-     then own_record_route t0 :: all_rr (m_headers m) else all_rr (m_headers m)).
-Proof. first [ exact C06.C06_backend_decorates | intros; eapply C06.C06_backend_decorates; eassumption ]. Qed.
-Theorem C06_branch_of_inj : forall a b, branch_of a = branch_of b -> a = b.
-Proof. first [ exact C06.branch_of_inj | intros; eapply C06.branch_of_inj; eassumption ]. Qed.
-Theorem C06_branch_of_cookie : forall n, has_prefix (s2b "z9hG4bK") (branch_of n) = true.
-Proof. first [ exact C06.branch_of_cookie | intros; eapply C06.branch_of_cookie; eassumption ]. Qed.
-Theorem C06_branches_distinct : forall e0 n, NoDup (map branch_of (seq e0 n)).
-Proof. first [ exact C06.C06_branches_distinct | intros; eapply C06.C06_branches_distinct; eassumption ]. Qed.
-Theorem C06_learn_lookup : forall k ip t l,
-  alookup k (learn ip t l) =
-  if beq k ip
-  then Some (match alookup ip l with
-             | Some old => if same_transport old t then old else t
-             | None => t
-             end)
-  else alookup k l.
-Proof. first [ exact C06.learn_lookup | intros; eapply C06.learn_lookup; eassumption ]. Qed.
-Theorem C06_learning : forall e peer peer_port from rs tcp m0 x x',
-  process_message e peer peer_port from rs tcp m0 x = Ok x' ->
-  x_learned x' =
-  if (is_request m0 && negb (amem peer (ps_backends (x_p x))))%bool
-  then fold_left (fun l h => learn h from l) (peer :: map v_host (all_vias (m_headers m0))) (x_learned x)
-  else x_learned x.
-Proof. first [ exact C06.C06_learning | intros; eapply C06.C06_learning; eassumption ]. Qed.
-Theorem C06_learning_response : forall e peer peer_port from rs tcp m0 x x',
-  is_request m0 = false ->
-  process_message e peer peer_port from rs tcp m0 x = Ok x' -> x_learned x' = x_learned x.
-Proof. first [ exact C06.C06_learning_response | intros; eapply C06.C06_learning_response; eassumption ]. Qed.
-Theorem C06_relayed_request : forall e peer peer_port from rs tcp m0 x x',
-  is_request m0 = true ->
-  process_message e peer peer_port from rs tcp m0 x = Ok x' ->
-  exists m1 extra, x_outs x' = x_outs x ++ extra /\ (msg_count extra <= 1)%nat /\ via_rel m0 m1 /\
-    let rr_of t := if (has_header (s2b "Record-Route") m0 || pa_must_rr (wire_proxy (e_lc e)))%bool
-                   then own_record_route t :: all_rr (m_headers m0) else all_rr (m_headers m0) in
-    forall o, In o extra -> is_msg o = true ->
-      exists mo, snd o = write_message mo /\
-        match effective_hop (e_cfg e) from m0 with
-        | HopAddr host _ _ =>
-            match alookup host (learned_after peer from m0 x) with
-            | Some t => all_vias (m_headers mo) = pushed_via e t :: all_vias (m_headers m1) /\
-                        all_rr (m_headers mo) = rr_of t
-            | None => all_vias (m_headers mo) = all_vias (m_headers m1) /\
-                      all_rr (m_headers mo) = all_rr (m_headers m0)
-            end
-        | HopBackend =>
-            exists t0, first_transport (e_lc e) = Some t0 /\
-                       all_vias (m_headers mo) = pushed_via e t0 :: all_vias (m_headers m1) /\
-                       all_rr (m_headers mo) = rr_of t0
-        | _ => False
-        end.
-Proof. first [ exact C03.C06_relayed_request | intros; eapply C03.C06_relayed_request; eassumption ]. Qed.
-End P_C06.
-
-(* ------------------------------------------------------------------ C03 *)
-From Model Require Import Bytes Wire Uri Hdr Message Msg StaticRoute RoundRobin Pins Proxy RunProxy SpecC14 SpecProxy SpecProxy2.
-From Model.proofs Require C06 C13 C03.
-Section P_C03.
-Import C06 C13 C03.
-Theorem C03_at_most_one : forall e peer peer_port from rs tcp m x x',
-  process_message e peer peer_port from rs tcp m x = Ok x' ->
-  exists extra, x_outs x' = x_outs x ++ extra /\ (msg_count extra <= 1)%nat.
-Proof. first [ exact C03.C03_at_most_one | intros; eapply C03.C03_at_most_one; eassumption ]. Qed.
-Theorem C03_at_most_one_udp : forall fx c now branch st li src sport data st' outs,
-  proxy_step fx c now branch st (EvUdp li src sport data) = Ok (st', outs) -> (msg_count outs <= 1)%nat.
-Proof. first [ exact C03.C03_at_most_one_udp | intros; eapply C03.C03_at_most_one_udp; eassumption ]. Qed.
-Theorem C03_at_most_one_tcp : forall fx c now branch st cid data st' outs,
-  proxy_step fx c now branch st (EvTcpData cid data) = Ok (st', outs) ->
-  exists chunks, outs = List.concat chunks /\
-                 (List.length chunks <= List.length (parse_stream (S (List.length data)) data))%nat /\
-                 Forall (fun ch => (msg_count ch <= 1)%nat) chunks.
-Proof. first [ exact C03.C03_at_most_one_tcp | intros; eapply C03.C03_at_most_one_tcp; eassumption ]. Qed.
-Theorem C03_choice : forall e peer peer_port from rs tcp m0 x x',
-  is_request m0 = true ->
-  process_message e peer peer_port from rs tcp m0 x = Ok x' ->
-  exists m1 p1,
-    let x1 := {| x_learned := learned_after peer from m0 x; x_p := p1; x_conns := x_conns x;
-                 x_world := x_world x; x_outs := x_outs x |} in
-    same_rr (x_p x) p1 /\
-    (forall nm, disjoint_names nm (s2b "Via") -> disjoint_names nm (s2b "CSeq") ->
-                disjoint_names nm (s2b "Route") -> disjoint_names nm (s2b "To") -> frame nm m0 m1) /\
-    via_rel m0 m1 /\
-    route_view m1 = skipn (route_consumed (e_cfg e) from (c_keep_next_hop (e_cfg e)) (route_view m0)) (route_view m0) /\
-    match effective_hop (e_cfg e) from m0 with
-    | HopAddr host port transport =>
-        x' = fst (send_message e host port transport (decorate e (x_learned x1) host m1) x1)
-    | HopBackend => x' = fst (send_to_backend e m1 x1)
-    | HopNone => x' = x1
-    | HopOut => False
-    end.
-Proof. first [ exact C03.C03_choice | intros; eapply C03.C03_choice; eassumption ]. Qed.
-Theorem C03_choice_outputs : forall e peer peer_port from rs tcp m0 x x',
-  is_request m0 = true ->
-  process_message e peer peer_port from rs tcp m0 x = Ok x' ->
-  exists extra, x_outs x' = x_outs x ++ extra /\ (msg_count extra <= 1)%nat /\
-    match effective_hop (e_cfg e) from m0 with
-    | HopAddr host port transport =>
-        (* only through the client transport for (transport, host, port); nothing for a
-           transport other than udp / tcp *)
-        supported_proto (to_lower transport) = false -> extra = []
-    | HopBackend =>
-        extra = [] \/ exists a d b, extra = [(d, b)] /\ backend_dest a = Some d /\
-                                    (In a (rr_backends (ps_rr (x_p x))) \/ exists g, backend_alive a g (x_p x) = true)
-    | HopNone => extra = []
-    | HopOut => False
-    end.
-Proof. first [ exact C03.C03_choice_outputs | intros; eapply C03.C03_choice_outputs; eassumption ]. Qed.
-Theorem C03_non_sip_route : forall c from m rp rest s,
-  remaining_routes c from m = EDec rp :: rest -> na_addr (r_addr rp) = AAbs s ->
-  choose_hop c from m = HopOut /\ effective_hop c from m = lower_choice c from m /\
-  forall keep, route_consumed c from keep (route_view m) =
-               ((match route_view m with EDec e1 :: _ => if designates c from e1 then 1 else 0 | _ => 0 end) +
-                (if keep then 0 else 1))%nat.
-Proof. first [ exact C03.C03_non_sip_route | intros; eapply C03.C03_non_sip_route; eassumption ]. Qed.
-Theorem C03_backend_member : forall e m x,
-  (forall a g, pinned_backend e (x_p x) m <> Some (BObj a g)) ->
-  exists extra, x_outs (fst (send_to_backend e m x)) = x_outs x ++ extra /\
-    (extra = [] \/ exists a d b, extra = [(d, b)] /\ In a (rr_backends (ps_rr (x_p x))) /\ backend_dest a = Some d) /\
-    (rr_backends (ps_rr (x_p x)) = [] -> extra = []).
-Proof. first [ exact C03.C03_backend_member | intros; eapply C03.C03_backend_member; eassumption ]. Qed.
-Theorem C03_backend_member_event : forall e peer peer_port from rs tcp m0 x x',
-  is_request m0 = true ->
-  process_message e peer peer_port from rs tcp m0 x = Ok x' ->
-  effective_hop (e_cfg e) from m0 = HopBackend ->
-  exists m1 p1, same_rr (x_p x) p1 /\
-    ((forall a g, pinned_backend e p1 m1 <> Some (BObj a g)) ->
-     exists extra, x_outs x' = x_outs x ++ extra /\
-       (extra = [] \/ exists a d b, extra = [(d, b)] /\ In a (rr_backends (ps_rr (x_p x))) /\ backend_dest a = Some d) /\
-       (rr_backends (ps_rr (x_p x)) = [] -> extra = [])).
-Proof. first [ exact C03.C03_backend_member_event | intros; eapply C03.C03_backend_member_event; eassumption ]. Qed.
-Theorem C03_unsupported_transport_dropped : forall e host port transport m x,
-  to_lower transport <> s2b "udp" -> to_lower transport <> s2b "tcp" ->
-  x_outs (fst (send_message e host port transport m x)) = x_outs x.
-Proof. first [ exact C03.C03_unsupported_transport_dropped | intros; eapply C03.C03_unsupported_transport_dropped; eassumption ]. Qed.
-Theorem C03_unsupported_transport_event : forall e peer peer_port from rs tcp m0 x x' host port transport,
-  is_request m0 = true ->
-  process_message e peer peer_port from rs tcp m0 x = Ok x' ->
-  effective_hop (e_cfg e) from m0 = HopAddr host port transport ->
-  to_lower transport <> s2b "udp" -> to_lower transport <> s2b "tcp" ->
-  x_outs x' = x_outs x.
-Proof. first [ exact C03.C03_unsupported_transport_event | intros; eapply C03.C03_unsupported_transport_event; eassumption ]. Qed.
-Theorem C03_b1_legacy_refuted :
-  effective_hop cfgA ex_from (msg_of b1_req) = HopAddr (s2b "10.0.0.5") 5070 (s2b "tcp") /\
-  dests (run1 b1_fixes cfgA [(s2b "10.0.0.5", 5070)] b1_req) = [DUdp (s2b "10.0.0.5") 5070] /\
-  dests (run1 all_fixed cfgA [(s2b "10.0.0.5", 5070)] b1_req) = [DDial (s2b "10.0.0.5") 5070 0; DConn 0].
-Proof. first [ exact C03.C03_b1_legacy_refuted | intros; eapply C03.C03_b1_legacy_refuted; eassumption ]. Qed.
-End P_C03.
-
 (* ------------------------------------------------------------------ C08 *)
 From Model Require Import Bytes Wire Uri Hdr Message Msg StaticRoute RoundRobin Pins Proxy RunProxy SpecC14 SpecProxy SpecProxy2.
 From Model.proofs Require C08.
@@ -1873,3 +1653,330 @@ Theorem C02_process_response : forall e peer port from rs tcp m0 x x',
   end.
 Proof. first [ exact C02.C02_process_response | intros; eapply C02.C02_process_response; eassumption ]. Qed.
 End P_C02.
+
+(* ------------------------------------------------------------------ C03 *)
+From Model Require Import Bytes Wire Uri Hdr Message Msg StaticRoute RoundRobin Pins Proxy RunProxy SpecC14 SpecProxy SpecProxy2.
+From Model.proofs Require C02 C13_bridge C06 C13 C03 C03_bridge.
+Section P_C03.
+Import C02 C13_bridge C06 C13 C03 C03_bridge.
+Theorem C03_choose_agree : forall c lc data jin m rest q,
+  j_read data = Some jin -> parse_message data = Ok (m, rest) -> j_request jin = Some q ->
+  route_domain_in (RS m) -> to_domain m -> ruri_domain jin -> routes_ok c ->
+  is_request m = true /\ hop_rel c (j_choose c lc false q) (effective_hop c (udp_transport lc) m).
+Proof. first [ exact C03_bridge.choose_agree | intros; eapply C03_bridge.choose_agree; eassumption ]. Qed.
+Theorem C03_judge_bridge_udp :
+  forall pc stj li lc src sport data closed jin m rest e rs x x' l,
+  nth_opt (c_listens (pc_cfg pc)) li = Some lc -> e_cfg e = pc_cfg pc -> e_lc e = lc ->
+  j_read data = Some jin -> parse_message data = Ok (m, rest) ->
+  route_domain_in (RS m) -> to_domain m -> ruri_domain jin ->
+  hosts_ok (pc_cfg pc) -> routes_ok (pc_cfg pc) -> (0 < lc_udp lc)%Z ->
+  fx_udp_via_listener (e_fx e) = true -> fx_stale_pin (e_fx e) = true ->
+  nth_opt (js_backends stj) li = Some l -> pool_agree l (x_p x) ->
+  Forall (backend_ok (pc_udp_endpoints pc)) l ->
+  (forall ip port, C02.udp_slot_ok ip port (x_p x)) -> C02.tcp_slot_ok (x_p x) ->
+  fits_datagram (write_message (would_send e src sport (udp_transport lc) rs m x)) = true ->
+  process_message e src sport (udp_transport lc) rs None m x = Ok x' ->
+  exists pre, x_outs x' = x_outs x ++ pre /\ (msg_count pre <= 1)%nat /\
+    ((forall q ip port, j_request jin = Some q -> j_choose (pc_cfg pc) lc false q = HHop (JTcp ip port) ->
+        msg_count pre = 0%nat -> dest_ok pc stj (JTcp ip port) [] = true) ->
+     judge_C03_event pc stj (EvUdp li src sport data)
+       (map labelled (filter (visible (pc_udp_endpoints pc)) pre)) closed = 0%nat).
+Proof. first [ exact C03_bridge.C03_judge_bridge_udp | intros; eapply C03_bridge.C03_judge_bridge_udp; eassumption ]. Qed.
+Theorem C03_judge_bridge_step :
+  forall pc stj fx now br st st' outs li lc p src sport data closed jin m rest,
+  nth_opt (c_listens (pc_cfg pc)) li = Some lc ->
+  j_read data = Some jin -> parse_message data = Ok (m, rest) ->
+  route_domain_in (RS m) -> to_domain m -> ruri_domain jin ->
+  hosts_ok (pc_cfg pc) -> routes_ok (pc_cfg pc) -> (0 < lc_udp lc)%Z ->
+  fx_udp_via_listener fx = true -> fx_stale_pin fx = true ->
+  agree stj st -> nth_p (st_proxies st) li = Some p ->
+  (forall l, nth_opt (js_backends stj) li = Some l -> Forall (backend_ok (pc_udp_endpoints pc)) l) ->
+  (forall ip port, C02.udp_slot_ok ip port p) -> C02.tcp_slot_ok p ->
+  fits_datagram (write_message (step_would_send fx (pc_cfg pc) now br st li lc p src sport m)) = true ->
+  proxy_step fx (pc_cfg pc) now br st (EvUdp li src sport data) = Ok (st', outs) ->
+  (forall q ip port, j_request jin = Some q -> j_choose (pc_cfg pc) lc false q = HHop (JTcp ip port) ->
+     msg_count outs = 0%nat -> dest_ok pc stj (JTcp ip port) [] = true) ->
+  judge_C03_event pc stj (EvUdp li src sport data)
+    (map labelled (filter (visible (pc_udp_endpoints pc)) outs)) closed = 0%nat.
+Proof. first [ exact C03_bridge.C03_judge_bridge_step | intros; eapply C03_bridge.C03_judge_bridge_step; eassumption ]. Qed.
+Theorem C03_judge_bridge_step_no_tcp :
+  forall pc stj fx now br st st' outs li lc p src sport data closed jin m rest,
+  nth_opt (c_listens (pc_cfg pc)) li = Some lc ->
+  j_read data = Some jin -> parse_message data = Ok (m, rest) ->
+  route_domain_in (RS m) -> to_domain m -> ruri_domain jin ->
+  hosts_ok (pc_cfg pc) -> routes_ok (pc_cfg pc) -> (0 < lc_udp lc)%Z ->
+  fx_udp_via_listener fx = true -> fx_stale_pin fx = true ->
+  agree stj st -> nth_p (st_proxies st) li = Some p ->
+  (forall l, nth_opt (js_backends stj) li = Some l -> Forall (backend_ok (pc_udp_endpoints pc)) l) ->
+  (forall ip port, C02.udp_slot_ok ip port p) -> C02.tcp_slot_ok p ->
+  fits_datagram (write_message (step_would_send fx (pc_cfg pc) now br st li lc p src sport m)) = true ->
+  proxy_step fx (pc_cfg pc) now br st (EvUdp li src sport data) = Ok (st', outs) ->
+  (forall q ip port, j_request jin = Some q -> j_choose (pc_cfg pc) lc false q <> HHop (JTcp ip port)) ->
+  judge_C03_event pc stj (EvUdp li src sport data)
+    (map labelled (filter (visible (pc_udp_endpoints pc)) outs)) closed = 0%nat.
+Proof. first [ exact C03_bridge.C03_judge_bridge_step_no_tcp | intros; eapply C03_bridge.C03_judge_bridge_step_no_tcp; eassumption ]. Qed.
+Theorem C03_agree_step_udp : forall pc stj fx now br st st' outs li src sport data,
+  agree stj st ->
+  proxy_step fx (pc_cfg pc) now br st (EvUdp li src sport data) = Ok (st', outs) ->
+  dials_readable outs ->
+  agree (js_step_c stj (EvUdp li src sport data) (map labelled (filter (visible (pc_udp_endpoints pc)) outs)) []) st'.
+Proof. first [ exact C03_bridge.agree_step_udp | intros; eapply C03_bridge.agree_step_udp; eassumption ]. Qed.
+Theorem C03_at_most_one : forall e peer peer_port from rs tcp m x x',
+  process_message e peer peer_port from rs tcp m x = Ok x' ->
+  exists extra, x_outs x' = x_outs x ++ extra /\ (msg_count extra <= 1)%nat.
+Proof. first [ exact C03.C03_at_most_one | intros; eapply C03.C03_at_most_one; eassumption ]. Qed.
+Theorem C03_at_most_one_udp : forall fx c now branch st li src sport data st' outs,
+  proxy_step fx c now branch st (EvUdp li src sport data) = Ok (st', outs) -> (msg_count outs <= 1)%nat.
+Proof. first [ exact C03.C03_at_most_one_udp | intros; eapply C03.C03_at_most_one_udp; eassumption ]. Qed.
+Theorem C03_at_most_one_tcp : forall fx c now branch st cid data st' outs,
+  proxy_step fx c now branch st (EvTcpData cid data) = Ok (st', outs) ->
+  exists chunks, outs = List.concat chunks /\
+                 (List.length chunks <= List.length (parse_stream (S (List.length data)) data))%nat /\
+                 Forall (fun ch => (msg_count ch <= 1)%nat) chunks.
+Proof. first [ exact C03.C03_at_most_one_tcp | intros; eapply C03.C03_at_most_one_tcp; eassumption ]. Qed.
+Theorem C03_choice : forall e peer peer_port from rs tcp m0 x x',
+  is_request m0 = true ->
+  process_message e peer peer_port from rs tcp m0 x = Ok x' ->
+  exists m1 p1,
+    let x1 := {| x_learned := learned_after peer from m0 x; x_p := p1; x_conns := x_conns x;
+                 x_world := x_world x; x_outs := x_outs x |} in
+    same_rr (x_p x) p1 /\
+    (forall nm, disjoint_names nm (s2b "Via") -> disjoint_names nm (s2b "CSeq") ->
+                disjoint_names nm (s2b "Route") -> disjoint_names nm (s2b "To") -> frame nm m0 m1) /\
+    via_rel m0 m1 /\
+    route_view m1 = skipn (route_consumed (e_cfg e) from (c_keep_next_hop (e_cfg e)) (route_view m0)) (route_view m0) /\
+    match effective_hop (e_cfg e) from m0 with
+    | HopAddr host port transport =>
+        x' = fst (send_message e host port transport (decorate e (x_learned x1) host m1) x1)
+    | HopBackend => x' = fst (send_to_backend e m1 x1)
+    | HopNone => x' = x1
+    | HopOut => False
+    end.
+Proof. first [ exact C03.C03_choice | intros; eapply C03.C03_choice; eassumption ]. Qed.
+Theorem C03_choice_outputs : forall e peer peer_port from rs tcp m0 x x',
+  is_request m0 = true ->
+  process_message e peer peer_port from rs tcp m0 x = Ok x' ->
+  exists extra, x_outs x' = x_outs x ++ extra /\ (msg_count extra <= 1)%nat /\
+    match effective_hop (e_cfg e) from m0 with
+    | HopAddr host port transport =>
+        (* only through the client transport for (transport, host, port); nothing for a
+           transport other than udp / tcp *)
+        supported_proto (to_lower transport) = false -> extra = []
+    | HopBackend =>
+        extra = [] \/ exists a d b, extra = [(d, b)] /\ backend_dest a = Some d /\
+                                    (In a (rr_backends (ps_rr (x_p x))) \/ exists g, backend_alive a g (x_p x) = true)
+    | HopNone => extra = []
+    | HopOut => False
+    end.
+Proof. first [ exact C03.C03_choice_outputs | intros; eapply C03.C03_choice_outputs; eassumption ]. Qed.
+Theorem C03_non_sip_route : forall c from m rp rest s,
+  remaining_routes c from m = EDec rp :: rest -> na_addr (r_addr rp) = AAbs s ->
+  choose_hop c from m = HopOut /\ effective_hop c from m = lower_choice c from m /\
+  forall keep, route_consumed c from keep (route_view m) =
+               ((match route_view m with EDec e1 :: _ => if designates c from e1 then 1 else 0 | _ => 0 end) +
+                (if keep then 0 else 1))%nat.
+Proof. first [ exact C03.C03_non_sip_route | intros; eapply C03.C03_non_sip_route; eassumption ]. Qed.
+Theorem C03_backend_member : forall e m x,
+  (forall a g, pinned_backend e (x_p x) m <> Some (BObj a g)) ->
+  exists extra, x_outs (fst (send_to_backend e m x)) = x_outs x ++ extra /\
+    (extra = [] \/ exists a d b, extra = [(d, b)] /\ In a (rr_backends (ps_rr (x_p x))) /\ backend_dest a = Some d) /\
+    (rr_backends (ps_rr (x_p x)) = [] -> extra = []).
+Proof. first [ exact C03.C03_backend_member | intros; eapply C03.C03_backend_member; eassumption ]. Qed.
+Theorem C03_backend_member_event : forall e peer peer_port from rs tcp m0 x x',
+  is_request m0 = true ->
+  process_message e peer peer_port from rs tcp m0 x = Ok x' ->
+  effective_hop (e_cfg e) from m0 = HopBackend ->
+  exists m1 p1, same_rr (x_p x) p1 /\
+    ((forall a g, pinned_backend e p1 m1 <> Some (BObj a g)) ->
+     exists extra, x_outs x' = x_outs x ++ extra /\
+       (extra = [] \/ exists a d b, extra = [(d, b)] /\ In a (rr_backends (ps_rr (x_p x))) /\ backend_dest a = Some d) /\
+       (rr_backends (ps_rr (x_p x)) = [] -> extra = [])).
+Proof. first [ exact C03.C03_backend_member_event | intros; eapply C03.C03_backend_member_event; eassumption ]. Qed.
+Theorem C03_unsupported_transport_dropped : forall e host port transport m x,
+  to_lower transport <> s2b "udp" -> to_lower transport <> s2b "tcp" ->
+  x_outs (fst (send_message e host port transport m x)) = x_outs x.
+Proof. first [ exact C03.C03_unsupported_transport_dropped | intros; eapply C03.C03_unsupported_transport_dropped; eassumption ]. Qed.
+Theorem C03_unsupported_transport_event : forall e peer peer_port from rs tcp m0 x x' host port transport,
+  is_request m0 = true ->
+  process_message e peer peer_port from rs tcp m0 x = Ok x' ->
+  effective_hop (e_cfg e) from m0 = HopAddr host port transport ->
+  to_lower transport <> s2b "udp" -> to_lower transport <> s2b "tcp" ->
+  x_outs x' = x_outs x.
+Proof. first [ exact C03.C03_unsupported_transport_event | intros; eapply C03.C03_unsupported_transport_event; eassumption ]. Qed.
+Theorem C03_b1_legacy_refuted :
+  effective_hop cfgA ex_from (msg_of b1_req) = HopAddr (s2b "10.0.0.5") 5070 (s2b "tcp") /\
+  dests (run1 b1_fixes cfgA [(s2b "10.0.0.5", 5070)] b1_req) = [DUdp (s2b "10.0.0.5") 5070] /\
+  dests (run1 all_fixed cfgA [(s2b "10.0.0.5", 5070)] b1_req) = [DDial (s2b "10.0.0.5") 5070 0; DConn 0].
+Proof. first [ exact C03.C03_b1_legacy_refuted | intros; eapply C03.C03_b1_legacy_refuted; eassumption ]. Qed.
+End P_C03.
+
+(* ------------------------------------------------------------------ C06 *)
+From Model Require Import Bytes Wire Uri Hdr Message Msg StaticRoute RoundRobin Pins Proxy RunProxy SpecC14 SpecProxy SpecProxy2.
+From Model.proofs Require C07_bridge C13_bridge C06 C13 C03 C06_bridge.
+Section P_C06.
+Import C07_bridge C13_bridge C06 C13 C03 C06_bridge.
+Theorem C06_judge_bridge_step :
+  forall pc stj fx now br st st' outs li lc src sport data closed jin m rest,
+  nth_opt (c_listens (pc_cfg pc)) li = Some lc ->
+  j_read data = Some jin -> parse_message data = Ok (m, rest) ->
+  br = branch_of (js_event stj) ->
+  agree_learned (pc_cfg pc) (js_learned stj) (st_learned st) ->
+  (forall p, nth_p (st_proxies st) li = Some p -> amem src (ps_backends p) = false) ->
+  B7.via_domain m -> B13.route_domain_in (B13.RS m) -> to_domain m -> ruri_domain jin ->
+  B7.src_ok src -> B7.branch_ok br ->
+  safe1 (lc_addr lc) = true -> (1 <= lc_udp lc <= 65535)%Z -> (0 <= lc_tcp lc <= 65535)%Z ->
+  lrn_ok (st_learned st) ->
+  proxy_step fx (pc_cfg pc) now br st (EvUdp li src sport data) = Ok (st', outs) ->
+  forall vis, judge_C06_event pc stj (EvUdp li src sport data) (map B13.labelled (filter vis outs)) closed = 0%nat.
+Proof. first [ exact C06_bridge.C06_judge_bridge_step | intros; eapply C06_bridge.C06_judge_bridge_step; eassumption ]. Qed.
+Theorem C06_judge_bridge_udp :
+  forall pc stj li lc src sport data closed jin m rest e rs x x' pre,
+  nth_opt (c_listens (pc_cfg pc)) li = Some lc -> e_cfg e = pc_cfg pc -> e_lc e = lc ->
+  e_branch e = branch_of (js_event stj) ->
+  j_read data = Some jin -> parse_message data = Ok (m, rest) ->
+  agree_learned (pc_cfg pc) (js_learned stj) (x_learned x) ->
+  amem src (ps_backends (x_p x)) = false ->
+  B7.via_domain m -> B13.route_domain_in (B13.RS m) -> to_domain m -> ruri_domain jin ->
+  B7.src_ok src -> B7.branch_ok (e_branch e) ->
+  safe1 (lc_addr lc) = true -> (1 <= lc_udp lc <= 65535)%Z -> (0 <= lc_tcp lc <= 65535)%Z ->
+  lrn_ok (x_learned x) ->
+  process_message e src sport (B13.udp_transport lc) rs None m x = Ok x' ->
+  x_outs x' = x_outs x ++ pre ->
+  forall vis, judge_C06_event pc stj (EvUdp li src sport data) (map B13.labelled (filter vis pre)) closed = 0%nat.
+Proof. first [ exact C06_bridge.C06_judge_bridge_udp | intros; eapply C06_bridge.C06_judge_bridge_udp; eassumption ]. Qed.
+Theorem C06_agree_step :
+  forall pc stj fx now br st st' outs li lc src sport data jin m rest outs' closed,
+  nth_opt (c_listens (pc_cfg pc)) li = Some lc ->
+  j_read data = Some jin -> parse_message data = Ok (m, rest) ->
+  agree_learned (pc_cfg pc) (js_learned stj) (st_learned st) ->
+  (exists p, nth_p (st_proxies st) li = Some p /\ amem src (ps_backends p) = false) ->
+  B7.via_domain m ->
+  proxy_step fx (pc_cfg pc) now br st (EvUdp li src sport data) = Ok (st', outs) ->
+  agree_learned (pc_cfg pc) (js_learned (js_step_c stj (EvUdp li src sport data) outs' closed)) (st_learned st').
+Proof. first [ exact C06_bridge.C06_agree_step | intros; eapply C06_bridge.C06_agree_step; eassumption ]. Qed.
+Theorem C06_lrn_ok_step :
+  forall fx c now br st st' outs li lc src sport data,
+  nth_opt (c_listens c) li = Some lc -> safe1 (lc_addr lc) = true -> (1 <= lc_udp lc <= 65535)%Z ->
+  lrn_ok (st_learned st) ->
+  proxy_step fx c now br st (EvUdp li src sport data) = Ok (st', outs) -> lrn_ok (st_learned st').
+Proof. first [ exact C06_bridge.C06_lrn_ok_step | intros; eapply C06_bridge.C06_lrn_ok_step; eassumption ]. Qed.
+Theorem C06_via_pushed : forall e t m,
+  let k := via_pos m in
+  m_headers (px_add_via e t m) = firstn k (m_headers m) ++ pushed_via_header e t :: skipn k (m_headers m) /\
+  m_start (px_add_via e t m) = m_start m /\ m_body (px_add_via e t m) = m_body m /\
+  sel (s2b "Via") (m_headers (px_add_via e t m)) = pushed_via_header e t :: sel (s2b "Via") (m_headers m) /\
+  all_vias (m_headers (px_add_via e t m)) = pushed_via e t :: all_vias (m_headers m) /\
+  (forall nm, same_header (s2b "Via") nm = false -> frame nm m (px_add_via e t m)).
+Proof. first [ exact C06.C06_via_pushed | intros; eapply C06.C06_via_pushed; eassumption ]. Qed.
+Theorem C06_via_position : forall e t m,
+  let k := via_pos m in
+  (k <= List.length (m_headers m))%nat /\
+  nth_error (m_headers (px_add_via e t m)) k = Some (pushed_via_header e t) /\
+  firstn k (m_headers (px_add_via e t m)) = firstn k (m_headers m) /\
+  skipn (S k) (m_headers (px_add_via e t m)) = skipn k (m_headers m) /\
+  sel (s2b "Via") (firstn k (m_headers m)) = [] /\
+  (sel (s2b "Via") (m_headers m) = [] -> k = O) /\
+  (sel (s2b "Via") (m_headers m) <> [] ->
+     exists h r, skipn k (m_headers m) = h :: r /\ same_header (h_name h) (s2b "Via") = true).
+Proof. first [ exact C06.C06_via_position | intros; eapply C06.C06_via_position; eassumption ]. Qed.
+Theorem C06_branch : forall e t, via_get_branch (pushed_via e t) = Some (e_branch e).
+Proof. first [ exact C06.C06_branch | intros; eapply C06.C06_branch; eassumption ]. Qed.
+Theorem C06_rr_policy : forall must t m,
+  if (has_header (s2b "Record-Route") m || must)%bool then
+    let k := find_record_route_pos (m_headers m) in
+    m_headers (px_add_record_route must t m)
+      = firstn k (m_headers m) ++ own_rr_header t :: skipn k (m_headers m) /\
+    m_start (px_add_record_route must t m) = m_start m /\ m_body (px_add_record_route must t m) = m_body m /\
+    sel (s2b "Record-Route") (m_headers (px_add_record_route must t m))
+      = own_rr_header t :: sel (s2b "Record-Route") (m_headers m) /\
+    all_rr (m_headers (px_add_record_route must t m)) = own_record_route t :: all_rr (m_headers m) /\
+    (forall nm, same_header (s2b "Record-Route") nm = false -> frame nm m (px_add_record_route must t m))
+  else px_add_record_route must t m = m.
+Proof. first [ exact C06.C06_rr_policy | intros; eapply C06.C06_rr_policy; eassumption ]. Qed.
+Theorem C06_rr_position : forall must t m,
+  (has_header (s2b "Record-Route") m || must)%bool = true ->
+  let k := find_record_route_pos (m_headers m) in
+  (k <= List.length (m_headers m))%nat /\
+  nth_error (m_headers (px_add_record_route must t m)) k = Some (own_rr_header t) /\
+  firstn k (m_headers (px_add_record_route must t m)) = firstn k (m_headers m) /\
+  skipn (S k) (m_headers (px_add_record_route must t m)) = skipn k (m_headers m) /\
+  sel (s2b "Record-Route") (firstn k (m_headers m)) = [] /\
+  (has_header (s2b "Record-Route") m = true ->
+     exists h r, skipn k (m_headers m) = h :: r /\ same_header (h_name h) (s2b "Record-Route") = true).
+Proof. first [ exact C06.C06_rr_position | intros; eapply C06.C06_rr_position; eassumption ]. Qed.
+Theorem C06_rr_flat : forall must t m,
+  all_rr (m_headers (px_add_record_route must t m)) =
+  if (has_header (s2b "Record-Route") m || must)%bool then own_record_route t :: all_rr (m_headers m)
+  else all_rr (m_headers m).
+Proof. first [ exact C06.C06_rr_flat | intros; eapply C06.C06_rr_flat; eassumption ]. Qed.
+Theorem C06_own_record_route_text : forall t, t_port t <> 0 ->
+  route_print [own_record_route t] = s2b "<sip:" ++ t_addr t ++ ":"%char :: itoa (t_port t) ++ s2b ";lr>".
+Proof. first [ exact C06.own_record_route_text | intros; eapply C06.own_record_route_text; eassumption ]. Qed.
+Theorem C06_decorate_learned : forall e l host t m,
+  alookup host l = Some t ->
+  all_vias (m_headers (decorate e l host m)) = pushed_via e t :: all_vias (m_headers m) /\
+  all_rr (m_headers (decorate e l host m)) =
+    (if (has_header (s2b "Record-Route") m || pa_must_rr (wire_proxy (e_lc e)))%bool
+     then own_record_route t :: all_rr (m_headers m) else all_rr (m_headers m)) /\
+  m_start (decorate e l host m) = m_start m /\ m_body (decorate e l host m) = m_body m /\
+  (forall nm, same_header (s2b "Via") nm = false -> same_header (s2b "Record-Route") nm = false ->
+              frame nm m (decorate e l host m)).
+Proof. first [ exact C06.C06_decorate_learned | intros; eapply C06.C06_decorate_learned; eassumption ]. Qed.
+Theorem C06_not_learned_untouched : forall e l host m, alookup host l = None -> decorate e l host m = m.
+Proof. first [ exact C06.C06_not_learned_untouched | intros; eapply C06.C06_not_learned_untouched; eassumption ]. Qed.
+Theorem C06_backend_decorates : forall e t0 p m,
+  all_vias (m_headers (backend_message e t0 p m)) = pushed_via e t0 :: all_vias (m_headers m) /\
+  all_rr (m_headers (backend_message e t0 p m)) =
+    (if (has_header (s2b "Record-Route") m || pa_must_rr (wire_proxy (e_lc e)))%bool
+     then own_record_route t0 :: all_rr (m_headers m) else all_rr (m_headers m)).
+Proof. first [ exact C06.C06_backend_decorates | intros; eapply C06.C06_backend_decorates; eassumption ]. Qed.
+Theorem C06_branch_of_inj : forall a b, branch_of a = branch_of b -> a = b.
+Proof. first [ exact C06.branch_of_inj | intros; eapply C06.branch_of_inj; eassumption ]. Qed.
+Theorem C06_branch_of_cookie : forall n, has_prefix (s2b "z9hG4bK") (branch_of n) = true.
+Proof. first [ exact C06.branch_of_cookie | intros; eapply C06.branch_of_cookie; eassumption ]. Qed.
+Theorem C06_branches_distinct : forall e0 n, NoDup (map branch_of (seq e0 n)).
+Proof. first [ exact C06.C06_branches_distinct | intros; eapply C06.C06_branches_distinct; eassumption ]. Qed.
+Theorem C06_learn_lookup : forall k ip t l,
+  alookup k (learn ip t l) =
+  if beq k ip
+  then Some (match alookup ip l with
+             | Some old => if same_transport old t then old else t
+             | None => t
+             end)
+  else alookup k l.
+Proof. first [ exact C06.learn_lookup | intros; eapply C06.learn_lookup; eassumption ]. Qed.
+Theorem C06_learning : forall e peer peer_port from rs tcp m0 x x',
+  process_message e peer peer_port from rs tcp m0 x = Ok x' ->
+  x_learned x' =
+  if (is_request m0 && negb (amem peer (ps_backends (x_p x))))%bool
+  then fold_left (fun l h => learn h from l) (peer :: map v_host (all_vias (m_headers m0))) (x_learned x)
+  else x_learned x.
+Proof. first [ exact C06.C06_learning | intros; eapply C06.C06_learning; eassumption ]. Qed.
+Theorem C06_learning_response : forall e peer peer_port from rs tcp m0 x x',
+  is_request m0 = false ->
+  process_message e peer peer_port from rs tcp m0 x = Ok x' -> x_learned x' = x_learned x.
+Proof. first [ exact C06.C06_learning_response | intros; eapply C06.C06_learning_response; eassumption ]. Qed.
+Theorem C06_relayed_request : forall e peer peer_port from rs tcp m0 x x',
+  is_request m0 = true ->
+  process_message e peer peer_port from rs tcp m0 x = Ok x' ->
+  exists m1 extra, x_outs x' = x_outs x ++ extra /\ (msg_count extra <= 1)%nat /\ via_rel m0 m1 /\
+    let rr_of t := if (has_header (s2b "Record-Route") m0 || pa_must_rr (wire_proxy (e_lc e)))%bool
+                   then own_record_route t :: all_rr (m_headers m0) else all_rr (m_headers m0) in
+    forall o, In o extra -> is_msg o = true ->
+      exists mo, snd o = write_message mo /\
+        match effective_hop (e_cfg e) from m0 with
+        | HopAddr host _ _ =>
+            match alookup host (learned_after peer from m0 x) with
+            | Some t => all_vias (m_headers mo) = pushed_via e t :: all_vias (m_headers m1) /\
+                        all_rr (m_headers mo) = rr_of t
+            | None => all_vias (m_headers mo) = all_vias (m_headers m1) /\
+                      all_rr (m_headers mo) = all_rr (m_headers m0)
+            end
+        | HopBackend =>
+            exists t0, first_transport (e_lc e) = Some t0 /\
+                       all_vias (m_headers mo) = pushed_via e t0 :: all_vias (m_headers m1) /\
+                       all_rr (m_headers mo) = rr_of t0
+        | _ => False
+        end.
+Proof. first [ exact C03.C06_relayed_request | intros; eapply C03.C06_relayed_request; eassumption ]. Qed.
+End P_C06.
